@@ -538,8 +538,8 @@ val identify_bracket_pairs_gen :
   bracket_pair list res
 
 val n0_scan :
-  bclass list -> bclass -> bclass -> nat -> nat list -> bool -> bool ->
-  (bool * bool) res
+  bool -> bclass list -> bclass list -> bclass -> bclass -> nat -> nat list
+  -> bool -> bool -> (bool * bool) res
 
 val n0_nsm :
   bool -> bclass list -> bclass list -> nat list -> bclass -> bclass list res
